@@ -247,6 +247,31 @@ func (t *Tx) SortUnconfirmedTx() (map[string]*pb.Transaction, TxGraph, map[strin
 			txGraph[refTxID] = append(txGraph[refTxID], txID)
 		}
 	}
+	// 读写依赖: 只读了某个key的某个版本的交易，必须排在覆盖该版本的交易之前，否则打包出的区块无法被重放
+	readers := map[string][]string{} // bucket/key@version -> 只读该版本的交易
+	writers := map[string]string{}   // bucket/key@version -> 覆盖该版本的交易
+	for txID, tx := range txMap {
+		written := map[string]bool{}
+		for _, txOut := range tx.TxOutputsExt {
+			written[txOut.Bucket+"/"+string(txOut.Key)] = true
+		}
+		for _, txIn := range tx.TxInputsExt {
+			rawKey := txIn.Bucket + "/" + string(txIn.Key)
+			verKey := fmt.Sprintf("%s@%x_%d", rawKey, txIn.RefTxid, txIn.RefOffset)
+			if written[rawKey] {
+				writers[verKey] = txID
+			} else {
+				readers[verKey] = append(readers[verKey], txID)
+			}
+		}
+	}
+	for verKey, writerID := range writers {
+		for _, readerID := range readers[verKey] {
+			if readerID != writerID {
+				txGraph[readerID] = append(txGraph[readerID], writerID)
+			}
+		}
+	}
 	txMapSize := int64(len(txMap))
 	if txMapSize > 0 {
 		avgDelay := totalDelay / txMapSize //平均unconfirm滞留时间
